@@ -710,6 +710,48 @@ func (s *session) rebalance(op hOp) {
 	}
 	// C12: a transient stream end of a vBucket of the NEW session arriving while the rebalance is still completing (its
 	// own request already answered, AfterStreamStart running): the vBucket has not ended for good
+	// C11: while the rebalance closes the streams, the server ends one of them on its own for good (a finite stream that
+	// reached its end, a dropped collection) - and that end is the last one counted: still a rebalance, the client goes on
+	naturalEndNote := ""
+	if s.oracles["C11"] && ((op.Snap%3)+3)%3 == 1 && len(s.vbs) >= 1 {
+		var open []uint16
+		for vb, m := range s.vbs {
+			if !m.ended && !m.dead {
+				open = append(open, vb)
+			}
+		}
+		sort.Slice(open, func(i, j int) bool { return open[i] < open[j] })
+		if len(open) >= 1 {
+			victim := open[len(open)-1]
+			cause := []error{nil, gocbcore.ErrDCPStreamFilterEmpty}[((op.N%2)+2)%2]
+			var others atomic.Int32
+			oldEnd := s.cl.endOnClose
+			s.cl.mu.Lock()
+			s.cl.endOnClose = true // every close is confirmed by an end notification (counted)
+			s.cl.onClose = func(vb uint16) {
+				if vb != victim {
+					others.Add(1)
+					return
+				}
+				// the victim's own close request waits until every other stream has been closed and confirmed, then the
+				// server's end of the victim's stream arrives (its close request finds no stream any more)
+				for dl := time.Now().Add(2 * time.Second); int(others.Load()) < len(open)-1 && time.Now().Before(dl); {
+					time.Sleep(100 * time.Microsecond)
+				}
+				time.Sleep(300 * time.Microsecond)
+				s.cl.serverEnd(victim, cause)
+			}
+			s.cl.mu.Unlock()
+			defer func() {
+				s.cl.mu.Lock()
+				s.cl.onClose = nil
+				s.cl.endOnClose = oldEnd
+				s.cl.mu.Unlock()
+			}()
+			naturalEndNote = fmt.Sprintf("; while it closed the streams the server ended vb %d's stream on its own (cause %v), counted last", victim, cause)
+			s.label("natural_end_counted_last_during_rebalance_close")
+		}
+	}
 	endedInRebalance := -1
 	endProp := "C12"
 	if s.oracles["C11"] {
@@ -796,6 +838,11 @@ func (s *session) rebalance(op hOp) {
 		}
 		if n > are {
 			break
+		}
+		if s.oracles["C11"] && stopChClosed(s.stopCh) {
+			s.fail("C11", "the rebalance terminated the client (stop signalled after %v, no reopen)%s", s.hand.names(), naturalEndNote)
+			s.stopped = true
+			return
 		}
 		if time.Now().After(deadline) {
 			s.fail("C04", "stream did not reopen after a rebalance")
